@@ -8,11 +8,13 @@ import MemchrModel.Driver.IsEqualRk
 import MemchrModel.Driver.TwoWay
 import MemchrModel.Driver.Prefilter
 import MemchrModel.Driver.ShiftOrPair
+import MemchrModel.Driver.PackedPair
+import MemchrModel.Driver.Swar
 
 open Memchr Memchr.Driver
 
 def handlers : List (String → List String → Option String) :=
-  [handleGeneric, handleIsEqualRk, handleTwoWay, handlePrefilter, handleShiftOrPair]
+  [handleGeneric, handleIsEqualRk, handleTwoWay, handlePrefilter, handleShiftOrPair, handlePackedPair, handleSwar]
 
 def step (line : String) : String :=
   match line.trimAscii.toString.splitOn " " with
